@@ -388,10 +388,16 @@ outer:
 			s.Unlock()
 
 			if nout != 0 {
-				r, _ := utf8.DecodeRune(utfb[:nout])
+				r, n := utf8.DecodeRune(utfb[:nout])
 				if r != utf8.RuneError {
 					ev := NewEventKey(KeyRune, r, ModNone)
 					s.postEvent(ev)
+					// one character may be more than one rune
+					for n < nout {
+						r2, n2 := utf8.DecodeRune(utfb[n:nout])
+						s.postEvent(NewEventKey(KeyRune, r2, ModNone))
+						n += n2
+					}
 				}
 				b = b[nin:]
 				continue outer
